@@ -37,6 +37,11 @@ type c06Case struct {
 // lexer invariant: tokens cover the input left to right without overlap, stay
 // inside it and end with end-of-input after at most len+2 tokens
 func c06Lexer(c *core.Ctx, text string, cas c06Case) {
+	defer func() {
+		if p := recover(); p != nil {
+			c.Violate("panic|lexer|"+firstLine(fmt.Sprint(p)), "every request returns without crashing", fmt.Sprintf("%v\ninput %q", p, firstN(text, 200)), cas)
+		}
+	}()
 	l := parser.NewLexer(text)
 	prevEnd := 0
 	covered := make([]bool, len(text)+1)
